@@ -726,7 +726,7 @@ fn gen_params(rng: &mut Rng) -> Option<String> {
 		1 => Some("null".into()),
 		2 => Some(format!("[{},{}]", rng.below(100), rng.below(100))),
 		3 => Some(format!("[{}]", rng.below(40))),
-		4 => Some("[18446744073709551615,1]".into()),
+		4 => Some((*rng.pick(&["[18446744073709551615,1]", "[18446744073709551615,0]", "[1.0,2]", "[1e0,1]", "[-1,2]", "[-0,1]", "[18446744073709551616,0]", "[\"1\",2]", "[1]", "[1,2,3]", "[]", "[ ]", "{}", "{\"a\":1,\"b\":2}", "[01,2]", "[1,null]", "[null,null]", "[[1,2]]", "[1 ,\t2\n]", "[100000]", "[100001]", "[0]", "[4294967296]"])).to_string()),
 		5 => Some(format!("{{\"a\":{}}}", gen_json(rng, 2))),
 		6 => Some(format!("[{}]", gen_json(rng, 2))),
 		_ => {
